@@ -117,6 +117,17 @@ CLAIMED = {
         design_ref="DESIGN.md §5 C10",
         note="As C09; weighted mean with zero total weight may be NaN or 0 (statement silent).",
     ),
+    "C18": dict(
+        technique="TLA+ model checking (TLC) of Params.tla parameter-tree state machine + replay of edge cover and simulated behaviours on real InputParameter* objects and DSOLModel",
+        category="model_checking",
+        text="Params.tla: construct (valid / out-of-bounds / ill-typed default, duplicate keys), set_value classes, model set/get, get/remove by "
+             "dotted path on trees of maps and leaves with priorities; invariants ValueValid, DefaultNeverChanges, ReadOnlyNeverChanges, "
+             "RejectedLeavesUnchanged, UniqueKeys, EveryNodeReachable, ModelSetGetRoundTrip for all operation sequences up to the bound; every "
+             "transition of a small graph and simulated behaviours over all eight parameter kinds are replayed on the real classes with a full "
+             "projection (value class, default, listing order, reachability by extended key) after each action.",
+        design_ref="DESIGN.md §5 C18",
+        note="Trusted: concretisation of value classes per kind; paths relative to the model's root map.",
+    ),
 }
 
 NOT_APPLICABLE = {
